@@ -620,6 +620,18 @@ def probe_margin_ok(dep, var_kind):
     return True
 
 
+def passes_documented_probe(spec):
+    """exact-arithmetic statement of the documented structural test: exactly one dependence, on cov (reciprocal at 1, 10, 100
+    within rel 1e-9) or on prec (identity within atol 1e-8 + rtol 1e-5, entrywise)"""
+    F = Fraction
+    if spec.get("more_deps") or spec.get("var") not in ("cov", "prec"):
+        return False
+    ent = spec["dep"]["entries"]
+    if spec["var"] == "prec":
+        return all(abs(d_frac(e, x) - x) <= F(1, 10 ** 8) + F(1, 10 ** 5) * x for x in (1, 10, 100) for e in ent)
+    return len(ent) == 1 and all(abs(d_frac(ent[0], x) - F(1, x)) <= F(1, 10 ** 9) * max(abs(d_frac(ent[0], x)), F(1, x)) for x in (1, 10, 100))
+
+
 def validation_case(ctx, spec, iface, cell):
     meta = {"op": "validate", "iface": iface, "spec": spec}
     try:
@@ -656,8 +668,12 @@ def validation_case(ctx, spec, iface, cell):
                 bcx = spec.get("bc", "zero") != "zero"
                 if bad and not bcx:
                     fail = "accepted, but the Gamma it draws from is not proportional to the target: " + bad
-                    sig = ("legacy.Conjugate|no-structural-validation" if iface == "legacy"
-                           else "exp.Conjugate|probe:three-point|non-identity-accepted")
+                    if iface == "legacy":
+                        sig = "legacy.Conjugate|no-structural-validation"
+                    elif passes_documented_probe(spec):
+                        sig = "exp.Conjugate|probe:three-point|non-identity-accepted"
+                    else:       # accepted although even the documented three-point test fails: not the known class
+                        sig = "exp.Conjugate|unsupported-dependence-accepted"
         except Exception as e:
             fail = "accepted, but the draw raised %s: %s" % (type(e).__name__, str(e)[:120])
             sig = ("legacy.Conjugate|no-structural-validation" if iface == "legacy" else "exp.Conjugate|accepted-then-raises")
